@@ -12,5 +12,6 @@ func main() {
 	verifio.Main(map[string]verifio.Runner{
 		"files": func(f []string) string { return configs.VerifFiles(verifio.KV(f)) },
 		"sec":   func(f []string) string { return configs.VerifSecrets(verifio.KV(f)) },
+		"rel":   func(f []string) string { return configs.VerifReload(verifio.KV(f)) },
 	})
 }
